@@ -84,6 +84,7 @@ struct ShimHooks {
 	void (*on_epoll_wait)(int timeout_ms);
 	// observe every intercepted call (site id) made by a sim task, before it executes
 	void (*on_call)(uint32_t site);
+	void (*on_bad_close)(int fd);           // close() of a non-negative number that is not an open descriptor
 	// epoll_wait would block for ever (negative timeout, nothing ready, no external event, no other task):
 	// return 0 to make the call return 0 events now; if unset the scheduler's deadlock handling applies
 	int (*on_blocked_forever)(void);
